@@ -11,10 +11,12 @@ class WorldCrash(Exception):
 
 
 class World:
-    def __init__(self, exe):
+    def __init__(self, exe, prelude=None):
         self.exe = exe
         self.p = None
         self.runs = 0
+        self.last_text = None       # protocol text of the previous case run in this process (None right after a start)
+        self.prelude = prelude      # protocol text to run once after every (re)start, before anything else
 
     def start(self):
         env = dict(os.environ, ASAN_OPTIONS="detect_leaks=0:abort_on_error=0:allocator_may_return_null=1",
@@ -39,7 +41,16 @@ class World:
         """returns (list of raw record lines, crash_text or None)"""
         if self.p is None or self.p.poll() is not None:
             self.start()
+            self.last_text = None
+            if self.prelude:
+                pre = self.prelude
+                self.prelude = None          # (no recursion)
+                self.run_text(pre)
+                self.prelude = pre
+                if self.p is None:
+                    self.start()
         self.runs += 1
+        self.last_text = text
         try:
             self.p.stdin.write(text.encode("ascii"))
             self.p.stdin.flush()
@@ -59,6 +70,7 @@ class World:
                     except Exception:
                         pass
                 self.p = None
+                self.last_text = None
                 return recs, "world died (rc=%s): %s" % (rc, err[-3000:])
             if line == b"END\n":
                 return recs, None
@@ -68,18 +80,38 @@ class World:
 class Worlds:
     """lazily started world processes, one per (ring capacity, flavour)"""
 
-    def __init__(self):
+    def __init__(self, prelude=None):
         self.w = {}
+        self.prelude = prelude or {}     # "qcap,flavour" -> protocol text run first in a fresh process (replay of hidden-state failures)
 
     def get(self, qcap, flavour):
         k = (qcap, flavour)
         if k not in self.w:
-            self.w[k] = World(build.world_path(qcap, flavour))
+            self.w[k] = World(build.world_path(qcap, flavour), self.prelude.get("%d,%s" % k))
         return self.w[k]
+
+    def snapshot(self):
+        """what ran last in every world process: the context a failure may depend on if the library keeps hidden state"""
+        return {"%d,%s" % k: w.last_text for k, w in self.w.items() if w.last_text}
 
     def run(self, s, flavour="plain", budget=None, stall=None):
         recs, crash = self.get(s["qcap"], flavour).run_text(S.to_protocol(s, budget, stall))
         return Trace(recs, crash)
+
+    def run_fresh(self, specs, flavour="plain"):
+        """run several cases one after the other in ONE freshly started world process (so that whatever the library keeps
+        between cat_init calls - it should keep nothing - is a function of the case, not of earlier cases)"""
+        w = World(build.world_path(specs[0]["qcap"], flavour))
+        out = []
+        try:
+            for sp in specs:
+                recs, crash = w.run_text(S.to_protocol(sp))
+                out.append(Trace(recs, crash))
+                if crash:
+                    break
+        finally:
+            w.stop()
+        return out
 
     def close(self):
         for w in self.w.values():
